@@ -8,7 +8,7 @@ import streams as S
 ID = "C06"
 MODULE = "JmesVerif.Props.C06"
 THEOREMS = ["C06_signature_table", "C06_registration_table", "C06_validate_arity", "C06_validate_ok_iff", "C06_validate_type",
-            "C06_class_level", "C06_result_type", "C06_no_unreachable", "C06_expref_args_shape", "C06_type_vocabulary", "C06_translated_validate_arity"]
+            "C06_class_level", "C06_result_type", "C06_no_unreachable", "C06_expref_args_shape", "C06_type_vocabulary", "C06_translated_validate_arity", "C06_translated_validator"]
 TRUSTED_BASE = [
     "Lean 4.33 kernel; axioms propext, Classical.choice, Quot.sound only",
     "tools/translate.py (regex extraction of every defn!(…) and register_function(…) line into Generated/Signatures.lean, re-run on every check)",
